@@ -284,6 +284,8 @@ class Spec:
 def used_blocks(entry, spec):
     """list of CIDR tuples used in an entry (both families)"""
     out = []
+    if not spec.usable():
+        return out   # the controller mapped something it should have rejected: no geometry to speak of
     for fam, pool, r in ((4, entry.get("v4"), spec.v4), (6, entry.get("v6"), spec.v6)):
         if pool and r not in (None, "M"):
             for u in pool["used"]:
@@ -314,7 +316,7 @@ def split_histories(ops, impl):
     return hs
 
 
-def judge_history(h, want):
+def judge_history(h, want, ignore_envelope=False):
     """returns (violations, outside) ; violations: list of dict(prop, idx, msg); outside: dict prop -> list of clauses hit"""
     V, OUT = [], {}
     specs = {}            # name -> Spec (API objects created)
@@ -322,8 +324,11 @@ def judge_history(h, want):
     boot_mapped = set()   # names mapped at the last boot
     prev = None           # previous parsed obs
     booted = False
+    boots = 0
     holders_shown = {}    # name -> set of cidr toks shown to / written by this incarnation
     known = {}            # name -> pod CIDRs of nodes that exist or whose deletion has not been delivered yet
+    listed_at_boot = None
+    incarn, viewinc, finals = {}, {}, {}   # node incarnations: current in the API, the one the cache refers to, final CIDRs of past ones
     drained_at = None
     # envelope bookkeeping (history-level clauses; once hit, they stay hit)
     clauses = set()
@@ -334,7 +339,7 @@ def judge_history(h, want):
     def bad(prop, i, msg, env_clauses=()):
         if prop not in want:
             return
-        hit = [c for c in env_clauses if c in clauses]
+        hit = [] if ignore_envelope else [c for c in env_clauses if c in clauses]
         if hit:
             OUT.setdefault(prop, []).append(hit[0])
         else:
@@ -454,10 +459,12 @@ def judge_history(h, want):
 
         # ---------------- boot
         if kind == "boot":
+            boots += 1
             booted = True
             svcs = [ptok(t) for t in f[1:3] if t != "-"]
             boot_mapped = set(e["name"] for e in snap_a if "name" in e)
             holders_shown = {n: set(nd["cidrs"]) for n, nd in api_nodes.items() if nd["cidrs"]}
+            listed_at_boot = {n: set(nd["cidrs"]) for n, nd in api_nodes.items() if nd["cidrs"]}
             del_processed = {}
             fin_removed = set()
             # C03/C04: after a restart only listed holders and service ranges justify used blocks
@@ -472,7 +479,7 @@ def judge_history(h, want):
 
         # ---------------- patches: C01, C02, C08, C09
         if ob["patches"]:
-            check_patches(i, op, f, ob, before, specs, svcs, boot_mapped, holders_shown, bad, clauses, del_processed, fin_removed)
+            check_patches(i, op, f, ob, before, specs, svcs, boot_mapped, holders_shown, bad, clauses, del_processed, fin_removed, boots, listed_at_boot)
         for p in ob["patches"]:
             if p["outcome"] in ("ok", "lost"):
                 holders_shown.setdefault(p["node"], set()).update(p["cidrs"])
@@ -501,17 +508,29 @@ def judge_history(h, want):
                 # gone from the API and the controller has been told
                 bad("C10", i, f"ClusterCIDR {nme} still contributes a pool although it no longer exists", ("P15-deleted-before-finalizer", "P15-foreign-finalizer"))
 
-        # ---------------- C04 at idle points
+        # ---------------- C04 at idle points: what still justifies a used block
+        if kind == "nodeAdd" and f[1] not in before["api_nodes"] and f[1] in api_nodes:
+            incarn[f[1]] = incarn.get(f[1], 0) + 1
+        if kind == "nodeDel" and f[1] in before["api_nodes"] and f[1] not in api_nodes:
+            finals[(f[1], incarn.get(f[1], 0))] = set(before["api_nodes"][f[1]]["cidrs"])
+        if kind == "boot":
+            for n in api_nodes:
+                incarn.setdefault(n, 1)
+            viewinc = {n: incarn.get(n, 0) for n in ob["view_nodes"]}
+        if kind == "deliverNode" or (kind == "procNode" and len(f) > 2 and f[2] == "1"):
+            if f[1] in ob["view_nodes"]:
+                viewinc[f[1]] = incarn.get(f[1], 0)
+            else:
+                viewinc.pop(f[1], None)
+        known = {}
         for n, nd in api_nodes.items():
             known.setdefault(n, set()).update(nd["cidrs"])
         for n, nd in ob["view_nodes"].items():
             known.setdefault(n, set()).update(nd["cidrs"])
-        for p in ob["patches"]:
-            if p["outcome"] in ("ok", "lost"):
-                known.setdefault(p["node"], set()).update(p["cidrs"])
-        for n in list(known):
-            if n not in api_nodes and n not in ob["view_nodes"]:
-                del known[n]
+            # the cache still refers to an incarnation of the node that is gone: its deletion has not been delivered
+            inc = viewinc.get(n)
+            if inc is not None and (n not in api_nodes or inc != incarn.get(n, 0)):
+                known[n].update(finals.get((n, inc), set()))
         if booted and kind != "boot":
             check_justified(i, op, ob, specs, svcs, bad, clauses, "C04", known)
 
@@ -558,7 +577,7 @@ def fmt(c):
     return f"{c[0]}:{c[1]:x}/{c[2]}"
 
 
-def check_patches(i, op, f, ob, before, specs, svcs, boot_mapped, holders_shown, bad, clauses, del_processed, fin_removed):
+def check_patches(i, op, f, ob, before, specs, svcs, boot_mapped, holders_shown, bad, clauses, del_processed, fin_removed, boots=0, listed_at_boot=None):
     kind = f[0]
     for p in ob["patches"]:
         node = p["node"]
@@ -608,7 +627,8 @@ def check_patches(i, op, f, ob, before, specs, svcs, boot_mapped, holders_shown,
                         bad("C01", i, f"node {node} assigned {toks}, overlapping {t} held by existing node {other}",
                             ("P9-cc-created-over-holder", "P12-overlap-different-block-size", "P13-lost-node-write", "P18-node-created-with-cidrs",
                              "label-edit", "P17b-multi-cidr-preset", "P15-deleted-before-finalizer", "generation-bumped", "P10-holder-not-selected", "preexisting-overlap"))
-                        bad("C03", i, f"node {node} assigned {toks}, overlapping {t} held by existing node {other}",
+                        if boots >= 2 and listed_at_boot is not None and t in listed_at_boot.get(other, ()):
+                          bad("C03", i, f"after a restart node {node} was assigned {toks}, overlapping {t} held by node {other}, which the restart had listed",
                             ("P9-cc-created-over-holder", "P12-overlap-different-block-size", "P13-lost-node-write", "P18-node-created-with-cidrs",
                              "label-edit", "P17b-multi-cidr-preset", "P15-deleted-before-finalizer", "generation-bumped", "P10-holder-not-selected", "preexisting-overlap"))
         # C09: service ranges, for ClusterCIDRs known at start-up
@@ -620,6 +640,8 @@ def check_patches(i, op, f, ob, before, specs, svcs, boot_mapped, holders_shown,
 
 def has_room(e, sp, snap, specs):
     """every family of the entry has a block that overlaps no used block of that family anywhere"""
+    if not sp.usable():
+        return False
     for r in sp.ranges():
         used = [b for (_, b) in all_used(snap, specs, r[0])]
         free = False
@@ -775,10 +797,10 @@ def judge_drained(h, i, last, specs, bad, clauses):
                      "P21-recreated-before-delete-delivered", "P10-holder-not-selected", "preexisting-overlap", "P15-deleted-before-finalizer"))
 
 
-def judge(ops, impl, want):
+def judge(ops, impl, want, ignore_envelope=False):
     out, outside = [], {}
     for h in split_histories(ops, impl):
-        V, OUT = judge_history(h, want)
+        V, OUT = judge_history(h, want, ignore_envelope)
         for v in V:
             out.append(dict(line=h.start + 1 + v["idx"], case_start=h.start, msg=v["msg"], prop=v["prop"]))
         for p, cl in OUT.items():
